@@ -1,2 +1,34 @@
--- stub: replaced by the component's line-protocol driver
-def main : IO Unit := pure ()
+import CelmaVerif.Base.Proto
+import CelmaVerif.Model.ArgString
+/- line-protocol driver for the ArgString2Array model (C07 splitting half) -/
+open CelmaVerif CelmaVerif.ArgString CelmaVerif.Proto
+
+def toChars (bs : List Nat) : List Char := bs.map Char.ofNat
+def ofChars (cs : List Char) : List Nat := cs.map Char.toNat
+
+def showArray : Res ArgArray → String
+  | .ok a =>
+    if !a.terminated then "!! argv[argc] is not null"
+    else
+      let ws := a.words
+      if ws.any Option.isNone then "!! argv slot without a string"
+      else
+        let body := ws.map fun w => hexOut (ofChars (w.getD []))
+        String.intercalate " " (s!"ok argc={a.argc}" :: body)
+  | .throw e => s!"throw {e.name}"
+  | .oob w => s!"oob {w}"
+
+def step (_ : Unit) (line : String) : Unit × String :=
+  match tokens line with
+  | ["case", _] => ((), "ok")
+  | ["as", "split", hx] =>
+    match hexDecode hx with
+    | some bs => ((), showArray (makeArgArray1 (toChars bs)))
+    | none => ((), "bad-op")
+  | ["as", "split2", hx, name] =>
+    match hexDecode hx, (if name == "null" then some none else (hexDecode name).map some) with
+    | some bs, some pn => ((), showArray (makeArgArray2 (toChars bs) (pn.map toChars)))
+    | _, _ => ((), "bad-op")
+  | _ => ((), "bad-op")
+
+def main : IO Unit := run () step
